@@ -51,6 +51,16 @@ def cmdEngine (j : Json) : Except String Json := do
   let r := Engine.runPlan p
   return Json.mkObj [("status", toJson r.status), ("reason", toJson r.reason), ("evs", toJson r.out.evs), ("objs", toJson r.out.objs)]
 
+def cmdStartup (j : Json) : Except String Json := do
+  let recovery : Bool ← j.getObjValAs? Bool "recovery"
+  let maxAge : Nat ← j.getObjValAs? Nat "maxAge"
+  let now : Nat ← j.getObjValAs? Nat "now"
+  let store : List Startup.Stored ← j.getObjValAs? (List Startup.Stored) "store"
+  return toJson (store.map fun p =>
+    let f := Startup.fate recovery maxAge now p
+    Json.mkObj [("id", p.id), ("fate", toJson f),
+      ("closedInner", toJson (if f == .closed then (Startup.close p).1.inner else p.inner))])
+
 def dispatch (j : Json) : Except String Json := do
   let cmd ← j.getObjValAs? String "cmd"
   match cmd with
@@ -59,6 +69,7 @@ def dispatch (j : Json) : Except String Json := do
   | "build" => cmdBuild j
   | "validate" => cmdValidate j
   | "engine" => cmdEngine j
+  | "startup" => cmdStartup j
   | "ping" => return "pong"
   | _ => throw s!"unknown cmd {cmd}"
 
